@@ -407,8 +407,21 @@ pub fn scratch_dir(tag: &str) -> PathBuf {
 }
 
 pub struct ScratchGuard(pub PathBuf);
+/// heed keeps every opened LMDB environment alive in a process-wide table; LocalClient never closes its
+/// global-dedup environment, so a worker that creates thousands of stores runs out of resources. Taking the table's
+/// reference out lets the environment close when its LocalClient is dropped.
+pub fn release_lmdb(store_dir: &Path) {
+    let p = store_dir.join("global_dedup_lookup.db");
+    if p.is_dir() {
+        if let Ok(env) = heed::EnvOpenOptions::new().open(&p) {
+            let _ = env.prepare_for_closing();
+        }
+    }
+}
+
 impl Drop for ScratchGuard {
     fn drop(&mut self) {
+        release_lmdb(&self.0.join("store"));
         // LocalClient marks xorbs read-only; removal of the directory entries still works (we own the dirs)
         let _ = std::fs::remove_dir_all(&self.0);
     }
